@@ -1151,7 +1151,17 @@ class _FuncAnalysis:
                 return State(facts, st.regions)
             return self.store(st, e, l)
         if k == 'CallExpr':
-            return self.call(st, e)
+            st = self.call(st, e)
+            if e.get('callee') in ('strspn', 'strcspn'):
+                # the span as a value inside a larger expression (p + strcspn(p, ..), buf[strcspn(buf, ..)]): the call's
+                # own symbol carries the result facts (it is evaluated anew on every visit: forget the previous ones)
+                sym = ('opaque', e.id)
+                facts = self.project(st.facts, lambda q: q == sym)
+                rf = self.call_result_facts(State(facts, st.regions), e, Lin.sym(sym))
+                for f in rf or ():
+                    facts = self.add(facts, f)
+                st = State(facts, st.regions)
+            return st
         if k == 'ImplicitCastExpr' and e.get('cast') == 'LValueToRValue' and self.top.check_reads:
             self.read(st, e)
             return st
